@@ -21,4 +21,15 @@ for name, lst in sorted(repo.classes.items()):
         if fs:
             table[f"{rel}::{name}"] = {k: sorted(v) for k, v in sorted(fs.items())}
 json.dump(table, open(os.path.join(VERIF, "sa", "engine", "fields.json"), "w"), indent=0, sort_keys=True)
+import ast  # noqa: E402
+funcs = {rel: sorted(n.name for n in ast.walk(tree) if isinstance(n, (ast.FunctionDef, ast.AsyncFunctionDef)) and getattr(n, "_parent", None) is tree
+                     or isinstance(n, (ast.FunctionDef, ast.AsyncFunctionDef)) and isinstance(getattr(n, "_parent", None), ast.If)
+                     and getattr(n._parent, "_parent", None) is tree)
+         for rel, tree in sorted(repo.non_trio_modules().items())}
+json.dump(funcs, open(os.path.join(VERIF, "sa", "engine", "functions.json"), "w"), indent=0, sort_keys=True)
+print(sum(len(v) for v in funcs.values()), "module-level functions")
+from sa.engine.fields import method_table  # noqa: E402
+mt = method_table(repo)
+json.dump(mt, open(os.path.join(VERIF, "sa", "engine", "methods.json"), "w"), indent=0, sort_keys=True)
+print(sum(len(v) for v in mt.values()), "private methods")
 print(len(table), "classes,", sum(len(v) for v in table.values()), "fields")
